@@ -251,6 +251,7 @@ class WorkQueue:
         self._channel: Queue[Any] = Queue()
         self._stopped = False
         self._pump_tasks: set[Task[None]] = set()
+        self._discard_futures: set[Future[Any]] = set()
 
         new_groups, new_streams = self._maybe_integrate_work(initial_work)
         non_empty_initial_root_groups = self._prune_empty_groups(new_groups)
@@ -305,6 +306,8 @@ class WorkQueue:
         for pump_task in self._pump_tasks:
             pump_task.cancel()
         cancel_awaitables.extend(self._pump_tasks)
+        # also wait for the work of failed groups that is still unwinding
+        cancel_awaitables.extend(self._discard_futures)
         # Work reported by graph events that have not been handled yet has not
         # been integrated into the graph, so it must be cancelled separately.
         channel = self._channel
@@ -683,11 +686,26 @@ class WorkQueue:
         del group_nodes[group]
         for task in list(group_node.tasks):
             if all(task_group not in group_nodes for task_group in task.groups):
-                self._remove_task(task)
+                self._discard_task(task)
         for child_group in group_node.child_groups:
             child_group_node = group_nodes.get(child_group)
             if child_group_node:
                 self._remove_group(child_group, child_group_node)
+
+    def _discard_task(self, task: WorkTask) -> None:
+        """Cancel and remove a task that no group is waiting for any more.
+
+        The task may still be running and may have produced streams; both
+        would be orphaned when the task is just removed from the graph.
+        """
+        cancel_awaitables: list[Awaitable[Any]] = []
+        self._cancel_task(task, None, cancel_awaitables)
+        self._remove_task(task)
+        if cancel_awaitables:
+            discard_futures = self._discard_futures
+            discard_future = gather(*cancel_awaitables, return_exceptions=True)
+            discard_futures.add(discard_future)
+            discard_future.add_done_callback(discard_futures.discard)
 
     def _remove_task(self, task: WorkTask) -> None:
         """Remove a task from all its groups and from the graph."""
